@@ -74,7 +74,8 @@ impl ShardResult {
 }
 
 // ---- crash capture -----------------------------------------------------------------------
-static mut CASE_BUF: [u8; 8192] = [0; 8192];
+const CASE_CAP: usize = 1 << 20;
+static mut CASE_BUF: [u8; CASE_CAP] = [0; CASE_CAP];
 static CASE_LEN: AtomicUsize = AtomicUsize::new(0);
 static CASE_SEQ: AtomicU64 = AtomicU64::new(0);
 static mut CRASH_FD: i32 = -1;
@@ -84,7 +85,7 @@ impl std::fmt::Write for BufW {
     fn write_str(&mut self, s: &str) -> std::fmt::Result {
         let b = s.as_bytes();
         unsafe {
-            let cap = 8192usize;
+            let cap = CASE_CAP;
             let n = b.len().min(cap - self.pos);
             let dst = std::ptr::addr_of_mut!(CASE_BUF) as *mut u8;
             std::ptr::copy_nonoverlapping(b.as_ptr(), dst.add(self.pos), n);
@@ -157,6 +158,8 @@ pub fn install_crash_capture(path: &std::path::Path, case_timeout_s: u64) {
             let cur = CASE_SEQ.load(Ordering::SeqCst);
             if cur != last { last = cur; since = std::time::Instant::now(); continue; }
             if cur != 0 && since.elapsed().as_secs() >= case_timeout_s && !WATCHDOG_PAUSED.load(Ordering::SeqCst) {
+                // the subject has returned and the engine's own oracle is what is slow: a machinery failure, not a verdict
+                if ORACLE_PHASE.load(Ordering::SeqCst) { write_crash_and_exit("PANIC engine oracle exceeded the per-case time limit", 97); }
                 write_crash_and_exit("TIMEOUT", 98);
             }
         }
@@ -170,6 +173,9 @@ pub fn install_crash_capture(path: &std::path::Path, case_timeout_s: u64) {
         write_crash_and_exit(&msg, 97);
     }));
 }
+/// set by a check while it evaluates its oracle on a result the subject has already returned
+pub static ORACLE_PHASE: std::sync::atomic::AtomicBool = std::sync::atomic::AtomicBool::new(false);
+pub fn oracle_phase(on: bool) { ORACLE_PHASE.store(on, Ordering::SeqCst); }
 pub static WATCHDOG_PAUSED: std::sync::atomic::AtomicBool = std::sync::atomic::AtomicBool::new(false);
 pub fn pause_watchdog(p: bool) { WATCHDOG_PAUSED.store(p, Ordering::SeqCst); CASE_SEQ.fetch_add(1, Ordering::SeqCst); }
 
